@@ -102,6 +102,18 @@ class MstSuite(Suite):
                     pts = cloud(rng, rng.choice([6, 9, 12]), dim=rng.choice([2, 3]))
                     out.append({"class": f"corner/bf{bf}/k{kk}/ex{int(ex)}", "points": pts, "bf": bf, "k": kk, "exclude_soma": ex,
                                 "soma": rng.random() < 0.4, "sort": rng.random() < 0.5, "api": "cuntz"})
+        # the first point is a hub (its neighbours are farther from one another than from it): a limit on the root bites, through both classes
+        for api in ("mst", "cuntz"):
+            for ex in (False, True):
+                for kk in (1, 2, 3):
+                    hub = [[0.0, 0.0, 0.0]] + [[10.0 * a, 10.0 * b, 10.0 * c] for a, b, c in ((1, 0, 0), (-1, 0, 0), (0, 1, 0), (0, -1, 0), (0, 0, 1), (0, 0, -1))]
+                    hub = hub[:1] + [[v + rng.randint(-8, 8) / 16 for v in q] for q in hub[1:]]
+                    out.append({"class": f"hub/{api}/k{kk}/ex{int(ex)}", "points": hub, "bf": 0.0, "k": kk, "exclude_soma": ex, "soma": False,
+                                "sort": rng.random() < 0.5, "api": api})
+        # larger clouds with a limit and no balancing factor (several saturated points with candidates waiting for them at the same time)
+        for n in ([120] + [rng.randint(200, 300) for _ in range(11)] if not big else [120] + [rng.randint(200, 400) for _ in range(30)]):
+            pts = cloud(rng, n, dim=3) if rng.random() < 0.5 else [[rng.uniform(-40, 40) for _ in range(3)] for _ in range(n)]
+            out.append({"class": f"large/n{n}/k2", "points": pts, "bf": 0.0, "k": 2, "exclude_soma": True, "soma": False, "sort": True, "api": "mst", "large": True})
         # dense clouds far from the origin: many nearly equal candidate edges, resolved only in double precision
         for _ in range(3 if not big else 8):
             off = [1.0e6, 2.0e6, 1.5e6]
@@ -145,6 +157,8 @@ class MstSuite(Suite):
     def lines(self, case, res):
         if "exc" in res:
             return []
+        if case.get("large"):
+            return []      # the oracle's clauses only: the quadratic reference and the rational model are for the smaller clouds
         pid, _ = self._orig_pids(case, res)
         ref, amb = reference(case["points"], case["bf"], case["k"], case["exclude_soma"])
         if pid is None or amb:
@@ -183,7 +197,7 @@ class MstSuite(Suite):
             bad = [i for i in range(n) if cnt[i] > case["k"] and not (case["exclude_soma"] and i == 0)]
             if bad:
                 out.append(("mst-branching-limit", f"points {bad} have {[cnt[i] for i in bad]} children, limit {case['k']}"))
-        ref, amb = reference(pts, case["bf"], case["k"], case["exclude_soma"])
+        ref, amb = (None, True) if case.get("large") else reference(pts, case["bf"], case["k"], case["exclude_soma"])
         if not amb and pid != ref:
             diff = [i for i in range(n) if pid[i] != ref[i]]
             key = "mst-greedy-rule" + ("/balancing" if case["bf"] > 0 else "")
